@@ -443,3 +443,265 @@ def gen_handler_trees(rng, n):
             rng.shuffle(kids)
         out.append(("ds", ("~", "parent", [], "", kids)))
     return out
+
+
+# ---------------------------------------------------------------------------------------------
+# round 3: Objects position, gain, channelLock, objectDivergence, zoneExclusion
+
+
+def _ns(**kw):
+    import types
+    return types.SimpleNamespace(**kw)
+
+
+def _fl(k):
+    return None if k is None else k / 100000.0
+
+
+def gain_token(kw):
+    """python result of a gain handler -> ('~' | ('L', float))"""
+    return "~" if "gain" not in kw else kw["gain"]
+
+
+def gain_matches(model, py):
+    """model 'L k' / 'D k' / '~' / 'E' vs python float / '~' / 'E' (dB: 10 ** (g / 20), not on the grid)"""
+    if model in ("~", "E") or py in ("~", "E"):
+        return model == py
+    kind, k = model.split()
+    k = int(k)
+    if kind == "L":
+        return py == k / 100000.0
+    want = 10 ** ((k / 100000.0) / 20.0)
+    return abs(py - want) <= 1e-12 * max(1.0, abs(want))
+
+
+def py2_parse(which, tree):
+    from ear.fileio.adm import xml as X
+    from ear.fileio.adm.elements import ObjectPolarPosition
+
+    el = to_lxml(tree)
+    try:
+        with warnings.catch_warnings():
+            warnings.simplefilter("ignore")
+            if which == "opos":
+                p = X.parse_objects_position(el)
+                s = p.screenEdgeLock
+                lock = "%s %s" % ("~" if s.horizontal is None else enc(s.horizontal),
+                                  "~" if s.vertical is None else enc(s.vertical))
+                if isinstance(p, ObjectPolarPosition):
+                    return "P %d %d %d %s" % (to_k(p.azimuth), to_k(p.elevation), to_k(p.distance), lock)
+                return "C %d %d %d %s" % (to_k(p.X), to_k(p.Y), to_k(p.Z), lock)
+            if which in ("gain1", "gain2"):
+                kw = {}
+                h = X.handle_gain_element_v1 if which == "gain1" else X.handle_gain_element_v2
+                for c in el:
+                    h(kw, c)
+                return gain_token(kw)
+            if which in ("gattr1", "gattr2"):
+                kw = {}
+                (X.handle_gain_attribute_v1 if which == "gattr1" else X.handle_gain_attribute_v2)(kw, el)
+                return gain_token(kw)
+            if which == "clock":
+                kw = {}
+                for c in el:
+                    X.handle_channel_lock(kw, c)
+                c = kw.get("channelLock")
+                return "~" if c is None else "1 %s" % opt(to_k(c.maxDistance))
+            if which == "div":
+                kw = {}
+                for c in el:
+                    X.handle_divergence(kw, c)
+                d = kw.get("objectDivergence")
+                return "~" if d is None else "%d %s %s" % (to_k(d.value), opt(to_k(d.azimuthRange)), opt(to_k(d.positionRange)))
+            if which == "zones":
+                kw = {}
+                h = X.zone_exclusion_handler.as_handler("zoneExclusion", default=[])
+                for c in el:
+                    h.handler(kw, c)
+                if "zoneExclusion" not in kw:
+                    return "~"
+                return zones_value(kw["zoneExclusion"])
+    except Exception:
+        return "E"
+
+
+def zones_value(zs):
+    from ear.fileio.adm.elements import CartesianZone
+
+    out = ["Z %d" % len(zs)]
+    for z in zs:
+        if isinstance(z, CartesianZone):
+            out.append("C %d %d %d %d %d %d" % tuple(to_k(x) for x in (z.minX, z.minY, z.minZ, z.maxX, z.maxY, z.maxZ)))
+        else:
+            out.append("P %d %d %d %d" % tuple(to_k(x) for x in (z.minElevation, z.maxElevation, z.minAzimuth, z.maxAzimuth)))
+    return " ".join(out)
+
+
+def py2_to_xml(which, value):
+    import lxml.etree as ET
+    from ear.fileio.adm import xml as X
+    from ear.fileio.adm.elements import (CartesianZone, ChannelLock, ObjectCartesianPosition, ObjectDivergence,
+                                         ObjectPolarPosition, PolarZone, ScreenEdgeLock)
+
+    parent = ET.Element("parent")
+    if which == "opos":
+        kind, a, b, c, h, v = value
+        sel = ScreenEdgeLock(horizontal=h, vertical=v)
+        pos = ObjectPolarPosition(azimuth=_fl(a), elevation=_fl(b), distance=_fl(c), screenEdgeLock=sel) if kind == "P" \
+            else ObjectCartesianPosition(X=_fl(a), Y=_fl(b), Z=_fl(c), screenEdgeLock=sel)
+        X.object_position_to_xml(parent, _ns(position=pos))
+    elif which == "gain":
+        X.gain_to_xml(parent, _ns(gain=_fl(value)))
+    elif which == "ogain":
+        X.optional_gain_to_xml(parent, _ns(gain=_fl(value)))
+    elif which == "gattr":
+        X.gain_attribute_to_xml(parent, _ns(gain=_fl(value)))
+    elif which == "clock":
+        X.channel_lock_to_xml(parent, _ns(channelLock=None if value is None else ChannelLock(maxDistance=_fl(value[0]))))
+    elif which == "div":
+        d = None if value is None else ObjectDivergence(value=_fl(value[0]), azimuthRange=_fl(value[1]), positionRange=_fl(value[2]))
+        X.divergence_to_xml(parent, _ns(objectDivergence=d))
+    elif which == "zones":
+        zs = [CartesianZone(**dict(zip(("minX", "minY", "minZ", "maxX", "maxY", "maxZ"), map(_fl, z[1:])))) if z[0] == "C"
+              else PolarZone(**dict(zip(("minElevation", "maxElevation", "minAzimuth", "maxAzimuth"), map(_fl, z[1:]))))
+              for z in value]
+        X.zone_exclusion_handler.as_handler("zoneExclusion", default=[]).to_xml(parent, _ns(zoneExclusion=zs))
+    return from_lxml(parent)
+
+
+def value2_line(which, value):
+    if which == "opos":
+        kind, a, b, c, h, v = value
+        return "hx opos %s %d %d %d %s %s" % (kind, a, b, c, "~" if h is None else enc(h), "~" if v is None else enc(v))
+    if which == "gain":
+        return "hx gain %d" % value
+    if which in ("ogain", "gattr"):
+        return "hx %s %s" % (which, opt(value))
+    if which == "clock":
+        return "hx clock ~" if value is None else "hx clock 1 %s" % opt(value[0])
+    if which == "div":
+        return "hx div ~" if value is None else "hx div %d %s %s" % (value[0], opt(value[1]), opt(value[2]))
+    if which == "zones":
+        return "hx zones " + " ".join("%s %s" % (z[0], " ".join(map(str, z[1:]))) for z in value)
+
+
+def expected2(which, value):
+    """what parsing the written XML must give back (direct predicate on the real code), or None if the value
+    is outside the stated domain"""
+    if which == "opos":
+        kind, a, b, c, h, v = value
+        if h not in (None, "left", "right") or v not in (None, "top", "bottom"):
+            return None
+        return ("opos", "%s %d %d %d %s %s" % (kind, a, b, c, "~" if h is None else enc(h), "~" if v is None else enc(v)))
+    if which == "gain":
+        return ("gain2", "~" if value == 100000 else value / 100000.0)
+    if which == "ogain":
+        return ("gain2", "~" if value is None else value / 100000.0)
+    if which == "gattr":
+        return ("gattr2", "~" if value is None else value / 100000.0)
+    if which == "clock":
+        return ("clock", "~" if value is None else "1 %s" % opt(value[0]))
+    if which == "div":
+        return ("div", "~" if value is None else "%d %s %s" % (value[0], opt(value[1]), opt(value[2])))
+    if which == "zones":
+        return ("zones", "~" if not value else " ".join(["Z %d" % len(value)] + ["%s %s" % (z[0], " ".join(map(str, z[1:]))) for z in value]))
+
+
+def gen_values2(rng, n):
+    out = []
+    o = lambda lo, hi, p=0.5: rng.randint(lo, hi) if rng.random() < p else None
+    for _ in range(n):
+        kind = rng.choice("PC")
+        if kind == "P":
+            a, b, c = rng.randint(-18000000, 18000000), rng.randint(-9000000, 9000000), rng.choice([100000, 0, rng.randint(0, 300000)])
+        else:
+            a, b, c = rng.randint(-100000, 100000), rng.randint(-100000, 100000), rng.choice([0, 0, rng.randint(-100000, 100000)])
+        h = rng.choice([None, None, "left", "right"]); v = rng.choice([None, None, "top", "bottom"])
+        if rng.random() < 0.04:
+            h = rng.choice(["top", "x"])
+        out.append(("opos", (kind, a, b, c, h, v)))
+        out.append(("gain", rng.choice([100000, 0, 50000, rng.randint(0, 400000)])))
+        out.append(("ogain", rng.choice([None, 100000, rng.randint(0, 400000)])))
+        out.append(("gattr", rng.choice([None, 100000, rng.randint(-200000, 200000)])))
+        out.append(("clock", rng.choice([None, (None,), (rng.randint(0, 200000),)])))
+        out.append(("div", None if rng.random() < 0.2 else (rng.randint(0, 100000), o(0, 18000000), o(0, 100000))))
+        zs = []
+        for _ in range(rng.choice([0, 1, 1, 2, 3])):
+            if rng.random() < 0.5:
+                zs.append(("C",) + tuple(rng.randint(-100000, 100000) for _ in range(6)))
+            else:
+                zs.append(("P", rng.randint(-9000000, 9000000), rng.randint(-9000000, 9000000),
+                           rng.randint(-18000000, 18000000), rng.randint(-18000000, 18000000)))
+        out.append(("zones", zs))
+    return out
+
+
+def gen_trees2(rng, n):
+    """synthetic children for the handlers of round 3 (valid, duplicated, malformed)"""
+    out = []
+    bad = lambda p=0.05: rng.random() < p
+    num = lambda lo=-2 * 10 ** 7, hi=2 * 10 ** 7: rng.choice(["x", "", grid(0)]) if bad() else grid(rng.randint(lo, hi))
+    for _ in range(n):
+        # Objects position
+        coords = rng.choice([["azimuth", "elevation"], ["azimuth", "elevation", "distance"], ["X", "Y"], ["X", "Y", "Z"],
+                             ["azimuth", "elevation", "distance"], ["X", "Y", "Z"], ["azimuth"], ["X", "Y", "azimuth"], []])
+        kids = []
+        for c in coords:
+            a = [("coordinate", c)] if not bad(0.02) else []
+            if rng.random() < 0.3 and c in ("azimuth", "X", "elevation", "Z"):
+                a.append(("screenEdgeLock", rng.choice(["left", "right"] if c in ("azimuth", "X") else ["top", "bottom"])))
+            elif bad(0.04):
+                a.append(("screenEdgeLock", rng.choice(["left", "top", "x"])))
+            if bad(0.05):
+                a.append(("bound", "max"))
+            lo, hi = {"azimuth": (-19000000, 19000000), "elevation": (-9500000, 9500000), "distance": (-10000, 300000)}.get(c, (-150000, 150000))
+            kids.append((rng.choice([DEFAULT_NS, DEFAULT_NS, DEFAULT_NS, None]), "position", a, num(lo, hi), []))
+        if bad(0.06) and kids:
+            kids.append(kids[0])
+        out.append(("opos", (None, "parent", [], "", kids)))
+        # gain elements (both versions)
+        kids = []
+        for _ in range(rng.choice([0, 1, 1, 1, 2])):
+            a = [("gainUnit", rng.choice(["linear", "dB", "dB", "db", ""]))] if rng.random() < 0.4 else []
+            kids.append((DEFAULT_NS, "gain", a, num(-4000000, 4000000), []))
+        out.append((rng.choice(["gain1", "gain2"]), (None, "parent", [], "", kids)))
+        # gain attribute
+        a = []
+        if rng.random() < 0.7:
+            a.append(("gain", num(-4000000, 4000000)))
+        if rng.random() < 0.4:
+            a.append(("gainUnit", rng.choice(["linear", "dB", "x"])))
+        if rng.random() < 0.3:
+            a.append(("phase", "1.00000"))
+        rng.shuffle(a)
+        out.append((rng.choice(["gattr1", "gattr2"]), (None, "coefficient", a, "AC_00010001", [])))
+        # channelLock
+        kids = []
+        for _ in range(rng.choice([0, 1, 1, 1, 2])):
+            a = [("maxDistance", num(0, 200000))] if rng.random() < 0.5 else []
+            kids.append((DEFAULT_NS, "channelLock", a, rng.choice(["1", "1", "1", "0", "2", ""]), []))
+        out.append(("clock", (None, "parent", [], "", kids)))
+        # objectDivergence
+        kids = []
+        for _ in range(rng.choice([0, 1, 1, 1, 2])):
+            a = []
+            if rng.random() < 0.5: a.append(("azimuthRange", num(0, 18000000)))
+            if rng.random() < 0.5: a.append(("positionRange", num(0, 100000)))
+            kids.append((DEFAULT_NS, "objectDivergence", a, num(0, 100000), []))
+        out.append(("div", (None, "parent", [], "", kids)))
+        # zoneExclusion
+        kids = []
+        for _ in range(rng.choice([0, 1, 1, 1, 2])):
+            zk = []
+            for _ in range(rng.choice([0, 1, 2, 3])):
+                keys = list(rng.choice([["minX", "minY", "minZ", "maxX", "maxY", "maxZ"],
+                                        ["minAzimuth", "maxAzimuth", "minElevation", "maxElevation"]]))
+                if bad(0.06): keys.pop()
+                if bad(0.06): keys.append(rng.choice(["minX", "minAzimuth", "other"]))
+                keys = list(dict.fromkeys(keys))  # attribute names are unique in XML
+                rng.shuffle(keys)
+                zk.append((rng.choice([DEFAULT_NS, DEFAULT_NS, None, "urn:unknown"]),
+                           rng.choice(["zone", "zone", "zone", "notzone"]), [(k, num(-100000, 100000)) for k in keys], "", []))
+            kids.append((DEFAULT_NS, "zoneExclusion", [], "", zk))
+        out.append(("zones", (None, "parent", [], "", kids)))
+    return out
